@@ -8,7 +8,7 @@ ENV = "GOFLAGS=-mod=mod GOPROXY=off GOSUMDB=off GOTOOLCHAIN=local GOWORK=off"
 
 # id -> (technique, level text, level note, design ref)
 CLAIMED = {
-    "C12": ("lockset + guard-dominance + must-pass-through + def-use over go/ssa (custom checker) + baton-passing after cond.Wait + clamp bound followed into helpers (every return bounded by the limit parameter) + reachability of the running-set insertion under an assumed job state (caller/callee agreement on re-attach) + unit conversion before rounding (no float->int conversion multiplied by a constant afterwards) + backward slice of the usage measurement feeding the semaphore (own process excluded) + control independence of re-attach calls from earlier re-attach results (both arms of a tainted branch reach the same call sites) + endJob dominated by a state comparison",
+    "C12": ("lockset + guard-dominance + must-pass-through + def-use over go/ssa (custom checker) + baton-passing after cond.Wait + clamp bound followed into helpers (every return bounded by the limit parameter) + reachability of the running-set insertion under an assumed job state (caller/callee agreement on re-attach) + unit conversion before rounding (no float->int conversion multiplied by a constant afterwards) + backward slice of the usage measurement feeding the semaphore (own process excluded) + control independence of re-attach calls from earlier re-attach results (both arms of a tainted branch reach the same call sites) + endJob dominated by a state comparison + reachability between verdict, lock acquisition and removal (K12: no Lock() of the semaphore between Metadata.getState and delete(running))",
             "Structural necessary conditions decided exhaustively over the current source: lock discipline of the semaphore fields, "
             "capacity test dominates every grant in the same critical section, acquire/release pairing on all paths, clamp before acquire, "
             "wake-up after every release/resize, FIFO head-of-line, single acquisition order. All interleavings are covered at once because the rules "
@@ -36,7 +36,7 @@ CLAIMED.update({
 })
 
 CLAIMED.update({
-    "C15": ("relation operand symmetry + field coverage (taint classes over go/ssa) + guard dominance on reattachToPipestance and Pipestance.Lock + all-elements-compared search + handler registration only for the lock owner + type name compared unless plain file (guard dominance on the accepting return) + reachability of struct-definition reads from EquivalentCall (interface calls expanded) + error-edge return values (no pipestance handed back when Lock failed) + guard dominance on every removal of the lock file (holder only) + who-may-rescan the pipestance-level metadata cache + writer/reader agreement on environment expansion of the invocation + memo-key completeness in the equivalence walk (an escape edge must continue the loop)",
+    "C15": ("relation operand symmetry + field coverage (taint classes over go/ssa) + guard dominance on reattachToPipestance and Pipestance.Lock + all-elements-compared search + handler registration only for the lock owner + type name compared unless plain file (guard dominance on the accepting return) + reachability of struct-definition reads from EquivalentCall (interface calls expanded) + error-edge return values (no pipestance handed back when Lock failed) + guard dominance on every removal of the lock file (holder only) + who-may-rescan the pipestance-level metadata cache + writer/reader agreement on environment expansion of the invocation + memo-key completeness in the equivalence walk (an escape edge must continue the loop) + operand-shape rule on float comparisons (S13: no ordering comparison against a non-zero constant in FloatExp.equal's family)",
             "Structural necessary conditions: every comparison / nested relation call in the equivalence relations pairs a receiver-derived value with the same component of the argument (found the genuine self-comparison in Modifiers.EquivalentTo, now fixed); "
             "each semantic field is read on both sides; attachment is dominated by byte equality with the recorded file and by EquivalentCall; refusals unlock; the lock is written only when absent, after the handler is registered; mutating entry points are guarded by readOnly().",
             "Not decided: completeness (cosmetic edits are accepted), races between two simultaneous first starts, that the byte comparison of the invocation text refuses a merely reformatted invocation (observation only).",
@@ -54,14 +54,14 @@ CLAIMED.update({
             "consumers leave the waiting set only when seen Complete/Disabled and never the nil consumer; only files with a nil keep-alive set reach os.RemoveAll; chunk files only under Split(); top-level outputs and retains carry the nil consumer; cloned forks inherit the bookkeeping; the three maps are touched only under storageLock (constructor-phase exceptions tabled).",
             "Not decided: whether getLogicalFileNames/anyOverlap find every alias (file-system values); stages passing upstream paths through (excluded by the property).",
             "DESIGN.md §4 C04"),
-    "C14": ("backward string provenance of removal targets + report/removal pairing + guard dominance over go/ssa (partial claim) + counted-once (entry leaves the cache) + containment-by-prefix needle ends with a separator + verdict agreement (no constant-false done result on a path that wrote the final report) + must-pass-through of the symlink check before every destructive callee of the per-fork sweep (or at all calls) + freshness of per-fork maps stored in a loop over forks + loop-variable dependence of the ancestor walk + O_NOFOLLOW (flag constant) on the root of util.Walk + nil-only guard on giving up in cacheParamFileMap + not-exist tolerance of the chunk temp sweep + kill-report reads dominated by storageLock.Lock",
+    "C14": ("backward string provenance of removal targets + report/removal pairing + guard dominance over go/ssa (partial claim) + counted-once (entry leaves the cache) + containment-by-prefix needle ends with a separator + verdict agreement (no constant-false done result on a path that wrote the final report) + must-pass-through of the symlink check before every destructive callee of the per-fork sweep (or at all calls) + freshness of per-fork maps stored in a loop over forks + loop-variable dependence of the ancestor walk + O_NOFOLLOW (flag constant) on the root of util.Walk + nil-only guard on giving up in cacheParamFileMap + not-exist tolerance of the chunk temp sweep + kill-report reads dominated by storageLock.Lock + must-pass-through os.Lstat or parent==nil guard on every return of vdrCheckSymlink (W12)",
             "Structural necessary conditions: every path VDR removes originates from the stage's own metadata accessors or from file-cache keys produced by walking enumerateFiles(); no VDR across a symlinked ancestor; the slice reported is the slice removed, removal lies between recording and writing the report, inside a critical section; per-phase temp cleanup is state-guarded, flagged once and persisted.",
             "Partial: equality of Count/Size with bytes removed, completeness (no volatile file survives) and merge arithmetic are run-time values and not decided.",
             "DESIGN.md §4 C14"),
 })
 
 CLAIMED.update({
-    "C05": ("must-pass-through ordering + guard dominance + who-may-call + interface-implementation enumeration over go/ssa (core, util, cmd/mrjob, cmd/mrp) + must-do (state re-derived after reset) + condition-implies-action (after an edge on which the restart condition holds every path to the entry point's return resets; verdict-returning helpers followed with the returned constants assumed) + condition-implies-action search with known facts (dominator-chain relations, loads of one access path) and with an assumed state value (contradicting edges pruned) + data dependence of the regenerated uniquifier on the previous one + loop-phase order (states derived only after every node loaded its metadata) + write-then-rename of the metadata archive + full reset renews the uniquifiers + sibling agreement of the chunk-directory width between first run and re-attach + condition-implies-action for orphaned Running nodes at re-attach + write-then-rename of extracted metadata files + ordering comparison in the uniquifier generator + must-pass-through of the submit command before the queue sentinel is removed (successful returns include the nil verdict of a helper) + chunk directories re-created by Fork.mkdirs + pipestance creation dominated by EnterCriticalSection",
+    "C05": ("must-pass-through ordering + guard dominance + who-may-call + interface-implementation enumeration over go/ssa (core, util, cmd/mrjob, cmd/mrp) + must-do (state re-derived after reset) + condition-implies-action (after an edge on which the restart condition holds every path to the entry point's return resets; verdict-returning helpers followed with the returned constants assumed) + condition-implies-action search with known facts (dominator-chain relations, loads of one access path) and with an assumed state value (contradicting edges pruned) + data dependence of the regenerated uniquifier on the previous one + loop-phase order (states derived only after every node loaded its metadata) + write-then-rename of the metadata archive + full reset renews the uniquifiers + sibling agreement of the chunk-directory width between first run and re-attach + condition-implies-action for orphaned Running nodes at re-attach + write-then-rename of extracted metadata files + ordering comparison in the uniquifier generator + must-pass-through of the submit command before the queue sentinel is removed (successful returns include the nil verdict of a helper) + chunk directories re-created by Fork.mkdirs + pipestance creation dominated by EnterCriticalSection + loop-body dominance (R15: the restartLocal call dominates every latch and exit of the loop over Fork.chunks)",
             "Crash-point enumeration is not static; decided instead are the ordering and ownership rules that make a crash at any point recoverable: durable-before-announced in the job monitor and in runJob, reset only of failed/orphaned work (never Complete), fresh uniquifier per attempt and stale notifications ignored, "
             "lock life-cycle and signal shutdown order, balanced critical sections that no HandleSignal enters and that enclose the multi-file updates.",
             "Not decided: equality of final outputs with an uninterrupted run, behaviour at each individual crash prefix, PID reuse. A lock leak on a non-signal error path of instantiatePipeline is outside the property's wording (handled signals) and reported as information in DESIGN.md.",
